@@ -422,14 +422,16 @@ theorem lperm_pickLoop : ∀ (fuel : Nat) (st : St), LPerm st (pickLoop fuel st)
   | zero => intro st; exact LPerm.refl _
   | succ fuel ih =>
     intro st
-    unfold pickLoop
+    rw [pickLoop_eq_ref]
+    unfold pickLoopRef
     split
     · exact LPerm.refl _
     · rename_i f v hp _
       simp only
       split
       · exact lperm_of_eq rfl rfl
-      · have h2 := ih { st with heap := hp, inHeap := st.inHeap.set! v false }
+      · rw [← pickLoop_eq_ref]
+        have h2 := ih { st with heap := hp, inHeap := st.inHeap.set! v false }
         exact ⟨h2.size, h2.perm, h2.nb⟩
 
 theorem lperm_decideSt (st : St) (var : Nat) : LPerm st (decideSt st var) := by
